@@ -214,3 +214,47 @@ func VerifC07Shapes() {
 		c07RoundTrip(rec)
 	}
 }
+
+// VerifC07Addrs: address-shaped first fields of every family (dotted quad,
+// IPv4-mapped and IPv4-embedding IPv6, compressed IPv6, zoned) with arbitrary
+// digits, one short name; grammar and Marshal/Unmarshal round trip.
+func VerifC07Addrs() {
+	var b []byte
+	b = append(b, [...]string{"", "::ffff:", "::FFFF:", "::", "64:ff9b::", "1::", "0:0:0:0:0:ffff:"}[verifrt.Choice(7)]...)
+	switch verifrt.Choice(3) {
+	case 0:
+		for k := 0; k < 4; k++ {
+			if k > 0 {
+				b = append(b, '.')
+			}
+			d := verifrt.Byte()
+			verifrt.Assume(d >= '0' && d <= '9')
+			b = append(b, d)
+		}
+	case 1:
+		for k := 0; k < 2; k++ {
+			if k > 0 {
+				b = append(b, ':')
+			}
+			d := verifrt.Byte()
+			verifrt.Assume(d >= '0' && d <= '9' || d >= 'a' && d <= 'f')
+			b = append(b, d)
+		}
+	default:
+		d := verifrt.Byte()
+		verifrt.Assume(d >= '0' && d <= '9' || d >= 'a' && d <= 'f')
+		b = append(b, d)
+	}
+	if verifrt.Bool2() {
+		b = append(b, '%')
+		z := verifrt.Byte()
+		verifrt.Assume(z < 0x80 && z != ' ' && z != '\t' && z != '#')
+		b = append(b, z)
+	}
+	b = append(b, ' ')
+	b = c07Free(b, 1, true)
+	rec, ok := c07Check(b)
+	if ok {
+		c07RoundTrip(rec)
+	}
+}
